@@ -1844,7 +1844,7 @@ fn read_residuals<R: BitRead, I: SignedInteger>(
         let partition_count = 1 << partition_order;
 
         let partition_len = block_size / partition_count;
-        if partition_len == 0 {
+        if partition_len == 0 || !block_size.is_multiple_of(partition_count) {
             return Err(Error::InvalidPartitionOrder);
         }
 
